@@ -95,6 +95,58 @@ async fn same_ms_deletes(net: &Net) -> Case {
     r.case("C11Case", "same_ms_deletes", f, json!({}))
 }
 
+/// a removed reference must not come back with a later version of its source row
+async fn removed_ref(net: &Net, extra: u64, by_ref: bool, next_day: bool) -> Case {
+    let mut r = Runner::new(net, 2).await;
+    removed_ref_history(&mut r, extra, by_ref, next_day).await;
+    let f = r.settle(T0 + 3 * DAY, 5).await;
+    r.case("C11Case", "removed_ref", f, json!({"extra_rows": extra, "modified_by_reference": by_ref, "next_day": next_day}))
+}
+async fn removed_ref_gen(net: &Net, rng: &mut Rng) -> Case {
+    let n = 2 + rng.below(2) as usize;
+    let mut r = Runner::new(net, n).await;
+    let extra = rng.below(4);
+    let by_ref = rng.chance(1, 2);
+    let next_day = rng.chance(1, 3);
+    removed_ref_history(&mut r, extra, by_ref, next_day).await;
+    let mut t = T0 + 2 * DAY;
+    for _ in 0..rng.below(5) {
+        t += 1000;
+        let dst = rng.below(n as u64) as usize; let src = (dst + 1 + rng.below(n as u64 - 1) as usize) % n;
+        r.exec(Op::Pull { dst, src, t }).await;
+    }
+    let f = r.settle(T0 + 3 * DAY, 6).await;
+    r.case("C11Case", "removed_ref_gen", f, json!({"extra_rows": extra, "modified_by_reference": by_ref, "next_day": next_day}))
+}
+/// an ordinary member (own rows only) deletes its own row; a replica that never held the row pulls from
+/// the deleter, then from a peer that still holds the row
+async fn self_only(net: &Net, via: bool) -> Case {
+    let mut r = Runner::new_ext(net, if via { 4 } else { 3 }, Some(2)).await;
+    self_only_history(&mut r, 2, 0, 1, if via { Some(3) } else { None }).await;
+    let f = r.settle(T0 + DAY, 5).await;
+    r.case("C11Case", "self_only_member", f, json!({"via_third_peer": via}))
+}
+/// generated: the ordinary member creates, updates and deletes its own rows (nobody else writes them),
+/// the other peers pull in a random order
+async fn self_only_gen(net: &Net, rng: &mut Rng) -> Case {
+    let n = 3 + rng.below(2) as usize;
+    let m = n - 1;
+    let mut r = Runner::new_ext(net, n, Some(m)).await;
+    let mut t = T0 + 1000 * rng.range(1, 30);
+    for _ in 0..(6 + rng.below(10)) {
+        advance(rng, &mut t);
+        let own: Vec<u64> = r.last_dump(m).nodes.iter().map(|x| x.0).collect();
+        match rng.below(10) {
+            0..=1 => { let x = r.next_id(); r.exec(Op::Create { p: m, x, t }).await; }
+            2 if !own.is_empty() => { let x = *rng.pick(&own); r.exec(Op::Update { p: m, x, t }).await; }
+            3..=4 if !own.is_empty() => { let x = *rng.pick(&own); r.exec(Op::Delete { p: m, x, t }).await; }
+            _ => { let dst = rng.below(n as u64 - 1) as usize; let src = (dst + 1 + rng.below(n as u64 - 1) as usize) % n; r.exec(Op::Pull { dst, src, t }).await; }
+        }
+    }
+    let f = r.settle(t + DAY, 6).await;
+    r.case("C11Case", "self_only_gen", f, json!({}))
+}
+
 /// one create + one delete, then a generated order of directed pulls over 3 peers
 async fn order_case(net: &Net, rng: &mut Rng, len: usize, same_day: bool) -> Case {
     let mut r = Runner::new(net, 3).await;
@@ -195,6 +247,12 @@ async fn main() {
     out.push(ref_readd(&net).await);
     out.push(same_ref(&net).await);
     out.push(same_ms_deletes(&net).await);
+    out.push(removed_ref(&net, 1, false, false).await);
+    out.push(removed_ref(&net, 2, true, true).await);
+    out.push(self_only(&net, false).await);
+    out.push(self_only(&net, true).await);
+    for _ in 0..scale(6, 150) { let mut r = rng.fork(); out.push(removed_ref_gen(&net, &mut r).await); }
+    for _ in 0..scale(6, 150) { let mut r = rng.fork(); out.push(self_only_gen(&net, &mut r).await); }
     for _ in 0..scale(10, 300) {
         let mut r = rng.fork();
         out.push(refs_case(&net, &mut r).await);
